@@ -59,7 +59,7 @@ Print Assumptions C42_sender_data.
    first n, and if the adversary changed anything the receiver reads (relevant) other than cutting off
    a tail at a record boundary (tail_dropped, finding 1) Read does not end with io.EOF. *)
 Theorem C42_model_prefix_and_detection : forall x w trail d st n,
-  wf_base x = true -> tampered_wire x = (w, trail) ->
+  wf_base x = true -> ssl3_longpad (i_cfg x) = false -> tampered_wire x = (w, trail) ->
   receive sbody sopen (i_cfg x) w trail = (d, st, n) ->
   is_prefix d (sent_bytes (i_writes x)) = true /\
   0 <= n /\ firstn (Z.to_nat n) w = firstn (Z.to_nat n) (orig_wire x) /\
@@ -70,8 +70,8 @@ Print Assumptions C42_model_prefix_and_detection.
 (* The property predicate that the harness evaluates on the implementation holds of the model on every
    tampered input outside finding class 1. *)
 Theorem C42_prop_of_model_tampered_partial : forall i x,
-  dec_C42 i = Some x -> wf_base x = true -> relevant x = true -> kf_C42 i = 0 ->
-  prop_C42 i (run_C42 i) = true.
+  dec_C42 i = Some x -> wf_base x = true -> ssl3_longpad (i_cfg x) = false -> relevant x = true ->
+  kf_C42 i = 0 -> prop_C42 i (run_C42 i) = true.
 Proof. exact prop_C42_of_model_tampered. Qed.
 Print Assumptions C42_prop_of_model_tampered_partial.
 
@@ -79,16 +79,19 @@ Print Assumptions C42_prop_of_model_tampered_partial.
    (cfg_ok: CBC block size 8 or 16, explicit IV empty or one block) and every peer whose CBC padding the
    receiving version accepts (pads_ok: SSLv3 looks only at the length byte - removePaddingSSL30 -, TLS
    requires uniform padding - removePadding), the untouched stream is delivered completely, Read ends
-   with io.EOF and the final sequence number is the number of records. *)
+   as the client's final alert record says (clean_status: io.EOF for close_notify, for a warning alert -
+   which readRecord drops - and for no alert; remote error 300+code for a fatal alert; unexpected_message
+   for an alert of another level or length) and the final sequence number is the number of records. *)
 Theorem C42_model_untampered : forall x, wf_base x = true -> cfg_ok (i_cfg x) = true -> pads_ok x = true ->
   receive sbody sopen (i_cfg x) (orig_wire x) 0 =
-  (sent_bytes (i_writes x), 1, Z.of_nat (length (S_of x))).
+  (sent_bytes (i_writes x), clean_status (i_close x), Z.of_nat (length (S_of x))).
 Proof. exact model_untampered. Qed.
 Print Assumptions C42_model_untampered.
 
 (* CENTRAL THEOREM.  For every input that decodes to a well-formed x (wf_C42: suite shape of the table,
    byte writes, stream below 16000 bytes, and a script that changes nothing the receiver reads is written
-   as the empty script - the generator normalises such scripts) and lies outside finding class 1, the
+   as the empty script - the generator normalises such scripts; not the SSLv3-with-long-peer-padding
+   shape of finding 2) and lies outside finding class 1, the
    property predicate evaluated by the harness holds of the model's output. *)
 Theorem C42_prop_of_model : forall i x,
   dec_C42 i = Some x -> wf_C42 x = true -> kf_C42 i = 0 -> prop_C42 i (run_C42 i) = true.
@@ -112,6 +115,21 @@ Theorem C42_tail_truncation_refuted : exists i x,
   run_C42 i = VL [VB [104; 101; 108; 108; 111]; VZ 1; VZ 1] /\ prop_C42 i (run_C42 i) = false.
 Proof. exact tail_truncation_witness. Qed.
 Print Assumptions C42_tail_truncation_refuted.
+
+(* Finding 2 (second refutation of "every modification is detected"): SSLv3 authenticates only the last
+   padding byte.  bfe_tls accepts SSLv3 records with more than one block of padding (removePaddingSSL30 does
+   not bound the padding by the block size as the SSLv3 specification does), so a bit flipped inside such a
+   padding is not detected: everything is delivered and Read ends with io.EOF.  In the model this is the
+   one case where a body flip does not turn the body into junk (sbflip); the unforgeability premise
+   `authentic` of C42_prefix_only fails for it, which is why the instance theorems carry the guard
+   ssl3_longpad = false. *)
+Theorem C42_ssl3_padding_refuted : exists x,
+  dec_C42 ex_ssl3_longpad_flip = Some x /\ wf_base x = true /\ ssl3_longpad (i_cfg x) = true /\
+  relevant x = true /\ kf_C42 ex_ssl3_longpad_flip = 2 /\
+  run_C42 ex_ssl3_longpad_flip = VL [VB [104; 101; 108; 108; 111; 119; 111; 114; 108; 100]; VZ 1; VZ 5] /\
+  prop_C42 ex_ssl3_longpad_flip (run_C42 ex_ssl3_longpad_flip) = false.
+Proof. exact ssl3_padding_witness. Qed.
+Print Assumptions C42_ssl3_padding_refuted.
 
 (* Non-vacuity: a flipped AEAD tag bit, a replayed record, an injected plaintext close_notify are all
    relevant, not in the finding class, and end in bad_record_mac / unexpected_message after delivering
